@@ -18,7 +18,7 @@ UNIVERSE2 = [b'A' * 12, b'xyz' * 9]
 
 
 def _queries():
-    qs = [('q', 'has'), ('q', 'bulk'), ('q', 'bulkall'), ('q', 'meta'), ('q', 'list'), ('q', 'streams')]
+    qs = [('q', 'has'), ('q', 'bulk'), ('q', 'bulkall'), ('q', 'meta'), ('q', 'list'), ('q', 'streams'), ('q', 'seekstreams')]
     for i in (0, 1):
         qs += [('q', 'get', i), ('q', 'meta1', i), ('q', 'stream', i)]
     return qs
